@@ -1,7 +1,6 @@
 """Independent MD4 written from RFC 1320 (one-shot, list-of-words, no incremental state), and the
 Windows formats built on it (nthash, bsd_nthash, msdcc, msdcc2).  Shares nothing with passlib."""
 import hashlib
-import hmac
 import struct
 
 M32 = 0xFFFFFFFF
